@@ -176,7 +176,15 @@ func (env *Env) eval(cl *Clause, ex ast.Expr) Value {
 		}
 	case *ast.BinaryExpr:
 		if x.Op == token.LAND || x.Op == token.LOR {
-			a, b := env.eval(cl, x.X).(BoolV), env.eval(cl, x.Y).(BoolV)
+			a := env.eval(cl, x.X).(BoolV)
+			// short circuit on a literal left operand (isType guards of by-cases contracts)
+			if x.Op == token.LAND && a.T.IsFalse() {
+				return BoolV{False}
+			}
+			if x.Op == token.LOR && a.T.IsTrue() {
+				return BoolV{True}
+			}
+			b := env.eval(cl, x.Y).(BoolV)
 			if x.Op == token.LAND {
 				return BoolV{And(a.T, b.T)}
 			}
@@ -533,13 +541,45 @@ func (env *Env) evalCall(cl *Clause, x *ast.CallExpr) Value {
 			specFail("generic spec functions are built-ins only (%s)", id.Name)
 		}
 		var args []Value
-		for _, a := range x.Args {
-			args = append(args, env.eval(cl, a))
+		sig := fobj.Type().(*types.Signature)
+		for i, a := range x.Args {
+			v := env.eval(cl, a)
+			// implicit conversion of a concrete argument to an interface parameter
+			if i < sig.Params().Len() {
+				if _, isIface := sig.Params().At(i).Type().Underlying().(*types.Interface); isIface {
+					at := cl.Info.Types[a].Type
+					if _, argIface := at.Underlying().(*types.Interface); !argIface && at != nil {
+						if _, already := v.(IfaceV); !already {
+							if _, sym := v.(SymIface); !sym {
+								v = IfaceV{Typ: at, V: v}
+							}
+						}
+					}
+				}
+			}
+			args = append(args, v)
 		}
 		return u.specCall(st, fn, args)
 	}
 	specFail("unsupported call %s in spec", id.Name)
 	return nil
+}
+
+// define records a definitional fact (an unfolding equation or an ordering fact of a ghost function application):
+// it holds in every state, so specCall carries it from the sub-execution back to the calling state.
+func (st *State) define(f *Term) {
+	st.assume(f)
+	st.defs = append(st.defs, f)
+}
+
+// adoptDefs copies the definitional facts discovered in a sub-execution that started from st.
+func (st *State) adoptDefs(sub *State) {
+	for _, f := range sub.defs[min(len(st.defs), len(sub.defs)):] {
+		st.define(f)
+	}
+	for _, ra := range sub.recApps[min(len(st.recApps), len(sub.recApps)):] {
+		st.recApps = append(st.recApps, ra)
+	}
 }
 
 // specCall executes a ghost function symbolically (total semantics, no obligations) and merges its paths.
@@ -562,6 +602,9 @@ func (u *Unit) specCall(st *State, fn *ssa.Function, args []Value) Value {
 	}
 	// merge outcomes: each path's extra conditions select its value
 	var acc Value
+	if len(outs) == 1 {
+		st.adoptDefs(outs[0].st)
+	}
 	for i := len(outs) - 1; i >= 0; i-- {
 		o := outs[i]
 		cond := True
@@ -1034,7 +1077,7 @@ func (u *Unit) recCall(st *State, fn *ssa.Function, args []Value) Value {
 		}
 		if acc != nil {
 			if eq, ok := u.valueEq(st, mk(t), acc); ok {
-				st.assume(eq)
+				st.define(eq)
 			}
 		}
 	}
@@ -1069,11 +1112,11 @@ func (u *Unit) monotoneFacts(st *State, fn *ssa.Function, args []Value, ts []*Te
 			return
 		}
 	}
-	st.assume(IntLe(IntK(0), app))
+	st.define(IntLe(IntK(0), app))
 	for _, ra := range st.recApps {
 		if ra.fn == fn.Name() && ra.other == key {
-			st.assume(Implies(IntLe(ra.bound, bound), IntLe(ra.app, app)))
-			st.assume(Implies(IntLe(bound, ra.bound), IntLe(app, ra.app)))
+			st.define(Implies(IntLe(ra.bound, bound), IntLe(ra.app, app)))
+			st.define(Implies(IntLe(bound, ra.bound), IntLe(app, ra.app)))
 		}
 	}
 	st.recApps = append(st.recApps, recApp{fn.Name(), key, bound, app})
